@@ -55,7 +55,8 @@ func build(s shape) *plan {
 	}
 	tbs := wrap(0x30, s.cls, version, p.innerAlg, p.issuer, thisUpd, nextUpd, list, ext)
 	p.outerAlg = wrap(0x30, 0, sym("sigalg", 5))
-	p.sigContent = sym("sig", 4)
+	// the signature may be long enough to put the outer SEQUENCE into another length class than tbsCertList
+	p.sigContent = sym("sig", verifrt.Param("siglen", 4))
 	sig := wrap(0x03, 0, []byte{0}, p.sigContent)
 	p.file = wrap(0x30, s.cls, tbs, p.outerAlg, sig)
 	outerHdr := len(p.file) - len(tbs) - len(p.outerAlg) - len(sig)
